@@ -735,6 +735,48 @@ func realSeeds(w *mon.Worker, name string) []*hcell {
 				add("tlb.MerkleUpdate[ShardState]", b.Refs[2])
 			}
 		}
+		// block_info over the flag combinations real chains never show (block.tlb):
+		//   block_info#9bc7a987 version:uint32 not_master:(## 1) after_merge:(## 1) before_split:(## 1) after_split:(## 1)
+		//     want_split:Bool want_merge:Bool key_block:Bool vert_seqno_incr:(## 1) flags:(## 8) seq_no:# vert_seq_no:# ...
+		//     master_ref:not_master?^BlkMasterInfo prev_ref:^(BlkPrevInfo after_merge) prev_vert_ref:vert_seqno_incr?^(BlkPrevInfo 0)
+		//   prev_blk_info$_ prev:ExtBlkRef = BlkPrevInfo 0; prev_blks_info$_ prev1:^ExtBlkRef prev2:^ExtBlkRef = BlkPrevInfo 1;
+		//   ext_blk_ref$_ end_lt:uint64 seq_no:uint32 root_hash:bits256 file_hash:bits256 = ExtBlkRef; master_info$_ master:ExtBlkRef
+		// the real header's fields are kept, the flag bits rewritten and the references rebuilt to match them
+		for _, info := range realSeedMap["tlb.BlockInfo"] {
+			if len(info.bits) < 144 {
+				continue
+			}
+			ext := func() *hcell { return &hcell{bits: s.rng.Bits(608)} }
+			for combo := 0; combo < 16; combo++ {
+				nm, am, vsi, other := combo&1 != 0, combo&2 != 0, combo&4 != 0, combo&8 != 0
+				v := &hcell{bits: append([]bool(nil), info.bits...)}
+				v.bits[64], v.bits[65], v.bits[71] = nm, am, vsi
+				if other {
+					v.bits[66], v.bits[67], v.bits[70] = !v.bits[66], !v.bits[67], !v.bits[70]
+				}
+				if vsi {
+					v.bits[143] = true // vert_seqno_incr <= vert_seq_no
+				}
+				if nm {
+					v.refs = append(v.refs, ext())
+				}
+				if am {
+					v.refs = append(v.refs, &hcell{refs: []*hcell{ext(), ext()}})
+				} else {
+					v.refs = append(v.refs, ext())
+				}
+				if vsi {
+					v.refs = append(v.refs, ext())
+				}
+				realSeedMap["tlb.BlockInfo"] = append(realSeedMap["tlb.BlockInfo"], v)
+				if combo < 8 && len(s.blocks) > 0 && len(s.blocks[0].Refs) == 4 {
+					// the same inside a block header
+					b := hroots(s.blocks[0])[0]
+					b.refs[0] = v
+					realSeedMap["tlb.BlockHeader"] = append(realSeedMap["tlb.BlockHeader"], b)
+				}
+			}
+		}
 		if s.mc != nil && len(s.mc.Refs) == 4 && len(s.mc.Refs[3].Refs) > 0 {
 			x := s.mc.Refs[3].Refs[len(s.mc.Refs[3].Refs)-1]
 			add("tlb.McBlockExtra", x)
